@@ -273,6 +273,10 @@ M('c02-guard-flipped', ['C02'], Y23 + 'f1040.py', "FloatField('34', lambda s, i,
 M('c02-reordered-summands', ['C02'], Y23 + 'f1040.py', "FloatField('14', lambda s, i, v: v['12'] + v['13']),", "FloatField('14', lambda s, i, v: float(v['13'] + v['12'])),", None, 'summands reordered and wrapped in float()', 'silent')
 M('c02-guarded-floor', ['C02'], Y23 + 'f1040.py', "FloatField('22', lambda s, i, v: max(0.0, v['18'] - v['21'])),", "FloatField('22', lambda s, i, v: v['18'] - v['21'] if v['18'] > v['21'] else 0.0),", None, 'floor written as a guarded subtraction', 'silent')
 
+# ------------------------------------------------------------------ R8.5 (amounts printed per filing status on the template)
+M('r85-2021-8812-33-hoh', ['C08'], Y21 + 'f1040_s8812.py', "            elif i['1040.filing_status'] is filing_status.HeadOfHousehold:\n                return 50000.0\n", "            elif i['1040.filing_status'] is filing_status.HeadOfHousehold:\n                return 40000.0\n", 'R8.5', '2021 Schedule 8812 line 33 for head of household differs from the amount printed in the box')
+M('r85-2023-8812-9-qss', ['C08'], Y23 + 'f1040_s8812.py', "                filing_status.MarriedFilingJointly: 400000.0,\n                (filing_status.Single, filing_status.MarriedFilingSeparately,\n                 filing_status.QualifyingSurvivingSpouse,\n", "                (filing_status.MarriedFilingJointly, filing_status.QualifyingSurvivingSpouse): 400000.0,\n                (filing_status.Single, filing_status.MarriedFilingSeparately,\n", None, 'qualifying surviving spouse moved to the joint phase-out threshold; the box prints 200,000 for all other statuses')
+
 # ------------------------------------------------------------------ K27 (the failure report names every item)
 M('k27-report-first-six', ['C01', 'C05'], CLI, "                print(f'{dependency} (needed by: {\", \".join(dependents)})')\n        if len(unmet_field_dependencies) > 0:", "                print(f'{dependency} (needed by: {\", \".join(dependents[:6])})')\n        if len(unmet_field_dependencies) > 0:", 'K27', 'only the first six waiting lines are named: which six depends on the attempt order (seed C05-D)')
 M('k27-report-first-unimplemented', ['C01', 'C05'], CLI, "            for unimplemented in unimplemented_fields:\n", "            for unimplemented in unimplemented_fields[:1]:\n", 'K27', 'only the first unimplemented line is named')
